@@ -9,7 +9,7 @@ RULE = ('polylines with rational edge lengths (axis-parallel and scaled 3-4-5 ed
         'entries (odd counts), offsets in [0, 3 periods] incl. exact switch points. Oracle (exact rational walk of the pattern along the arc length): '
         'every output point on the source, output begins with MoveTo, total output length = length of the source inside the on-intervals (1e-9 L '
         'polylines, 1e-4 L curves), pattern restarts per sub-path; generic stratum: the full piece geometry incl. the first-dash-last rotation and the '
-        'closed-sub-path join. Implementation compared with the Float instantiation of the Lean model (structure exact, coordinates 1e-9). '
+        'closed-sub-path join; a closed sub-path (polyline or curved) inside the first dash must come back as the sub-path itself, ClosePath last. Implementation compared with the Float instantiation of the Lean model (structure exact, coordinates 1e-9). '
         'non-trivial = distinct (path, pattern, offset) with at least one drawing element')
 KERNEL_DEPS = [r'Line\.(arclen|inv_arclen|eval|subsegment)', r'PathSeg\.(subsegment|eval|start)']
 UNPROVED = ['curves: depends on the accuracy of inv_arclen (C03); compared with tolerance', 'zero entries in the pattern (outside the quantifier)']
@@ -193,6 +193,45 @@ def dash_curve(els, offset, pattern):
     return Case([line] + plen, 'IF', judge, 'curves', 'oracle')
 
 
+@maker(MAKERS)
+def dash_whole(els, offset, pattern):
+    """a single CLOSED sub-path (M, segments, Z) that lies inside the first dash (pattern on at the offset, what is left of the first dash longer
+    than the perimeter): the output must be the whole sub-path, element for element and in order - M, the segments, the closing line if the last
+    segment does not end at the start point, ClosePath LAST (crate repair 7127469; before it ClosePath came before the last segment) - and the
+    Float model must say the same"""
+    els = [tuple(tuple(x) if isinstance(x, list) else x for x in el) for el in els]
+    line = f'path.dash {H(offset)} {len(pattern)} {H(*pattern)} {els_str(els)}'
+    want = list(els[:-1])
+    if tuple(els[-2][-1]) != tuple(els[0][1]):
+        want.append(('L', els[0][1]))
+    want.append(('Z',))
+
+    def judge(o):
+        i, f = o['I'][0], o['F'][0]
+        if i.startswith('PANIC') or i == 'DIED':
+            return f'dash panicked: {i}'
+        if engine_error(i):
+            return 'engine error ' + i
+        out = parse_out(i[3:])
+        if out is None:
+            return f'unparsable output {i[:80]}'
+        if [e[0] for e in out] != [e[0] for e in want]:
+            return f'closed sub-path inside the first dash is not returned whole: got {"".join(e[0] for e in out)}, want {"".join(e[0] for e in want)}'
+        for a, b in zip(out, want):
+            for pa, pb in zip(a[1:], b[1:]):
+                if math.hypot(pa[0] - pb[0], pa[1] - pb[1]) > 1e-9 * 20.0:
+                    return f'closed sub-path inside the first dash: output point {pa} differs from the source point {pb}'
+        if engine_error(f) or not f.startswith('ok'):
+            return f'CORR model: {f[:60]}'
+        fo = parse_out(f[3:])
+        if [e[0] for e in fo] != [e[0] for e in out]:
+            return f'CORR structure impl={"".join(e[0] for e in out)} model={"".join(e[0] for e in fo)}'
+        if not cmp_rel(i, f, 1e-9, 20.0):
+            return f'CORR impl != model@Float impl={i[:160]} model={f[:160]}'
+        return None
+    return Case(line, 'IF', judge, 'closed-inside-first-dash-whole', 'oracle')
+
+
 DIRS = [(1, 0), (0, 1), (-1, 0), (0, -1), (3, 4), (4, 3), (-3, 4), (4, -3), (-4, -3), (3, -4)]
 
 
@@ -261,9 +300,22 @@ def generate(rng, tier):
         if rng.random() < 0.7:
             els[-1] = els[-1][:-1] + (p0,)      # the last curve returns exactly to the start (as the outline of a circle does): ClosePath adds no closing line
         els.append(('Z',))
-        c = dash_curve(els, 0.0, [rng.choice([500.0, 1000.0]), rng.uniform(0.5, 2.0)])
+        pat = [rng.choice([500.0, 1000.0]), rng.uniform(0.5, 2.0)]
+        c = dash_curve(els, 0.0, pat)
         c.stratum = 'closed-inside-first-dash'
         yield c
+        # the same input, exact statement of the repaired behaviour (7127469): the output is the sub-path itself, ClosePath last
+        yield dash_whole(els, 0.0, pat)
+    # the same for closed polylines (theorems dash_closed_whole / dash_closed_whole_closePath_last of Proofs/C13B.lean)
+    for _ in range(6 if tier == 'quick' else 100):
+        p0 = (float(rng.randint(-5, 5)), float(rng.randint(-5, 5)))
+        els = [('M', p0)]
+        for _ in range(rng.randint(2, 4)):
+            els.append(('L', (float(rng.randint(-5, 5)), float(rng.randint(-5, 5)))))
+        if rng.random() < 0.5:
+            els.append(('L', p0))
+        els.append(('Z',))
+        yield dash_whole(els, rng.choice([0.0, 1.0]), [rng.choice([500.0, 1000.0]), rng.uniform(0.5, 2.0)])
 
 
 def _first_dash_state(offset, pattern):
@@ -279,10 +331,12 @@ def _first_dash_state(offset, pattern):
 
 
 def closed_subpath_inside_first_dash(els, offset, pattern):
-    """root cause predicate (input only): some sub-path ends with ClosePath, has at least two drawn segments, returns to its start point by itself
-    (so that ClosePath contributes no closing line and the last SEGMENT is a drawn one) and its whole perimeter is not longer than what is left of
-    the FIRST 'on' dash (the phase is reset at every sub-path): DashIterator::step then appends the ClosePath to the stash BEFORE the last segment
-    of the sub-path, which comes out after it, drawn from the start point (`M C C C Z C` for a circle)"""
+    """root cause predicate (input only) of the finding C13-closed-subpath-inside-first-dash, FIXED in the crate by 7127469 (kept for the record and
+    for gen/c14.py; no 'known' entry refers to it any more, so a failure on such input is reported as a violation again): some sub-path ends with
+    ClosePath, has at least two drawn segments, returns to its start point by itself (so that ClosePath contributes no closing line and the last
+    SEGMENT is a drawn one) and its whole perimeter is not longer than what is left of the FIRST 'on' dash (the phase is reset at every sub-path):
+    before the repair DashIterator::step appended the ClosePath to the stash BEFORE the last segment of the sub-path, which came out after it,
+    drawn from the start point (`M C C C Z C` for a circle)"""
     if not pattern:
         return False
     rem, on = _first_dash_state(offset, pattern)
@@ -316,7 +370,7 @@ def closed_subpath_inside_first_dash(els, offset, pattern):
 
 
 def dash_closed_inside_first(case, outs, verdict):
-    """known finding C13-closed-subpath-inside-first-dash (see `closed_subpath_inside_first_dash`)"""
+    """finding C13-closed-subpath-inside-first-dash (see `closed_subpath_inside_first_dash`); status 'fixed' since 7127469: not consulted any more"""
     if verdict.startswith('CORR'):
         return False
     a = case.meta.get('args', [])
